@@ -128,7 +128,8 @@ def check_case(case):
     obj, hist, acc, img, k = case["obj"], case["hist"], case["acc"], case["img"], case["n"] + case["seed"]
     dis = []
     pts = [fpt(p) for p in (img[1:4] if img[0] == "A" else img[1:])]
-    scale = max([1.0] + [abs(v) for p in pts for v in p])
+    unit = Fraction(*[int(x) for x in case["unit"].split("/")]) if "unit" in case else 1
+    scale = max([float(unit)] + [abs(v) for p in pts for v in p])
     ms = [mat(M) for M in hist]
     runs = []
 
@@ -232,12 +233,41 @@ def check_case(case):
     return {"dis": dis, "nontrivial": len(hist) >= 1, "class": "%s:%s" % (obj[0], tc), "checked": ["DefiningPoint", "BezierPoint", "ArcPoint", "Centre", "Endpoints"]}
 
 
+UNITS = [(1, 1000), (12345, 1), (37, 100), (100000, 1), (1, 64)]
+
+
+def scaled(case, u):
+    """The same case in another unit of length (affine maps are equivariant under uniform scaling of the plane:
+    points and translation parts scale by u, linear parts, angles and directions stay) - the property quantifies over
+    coordinate magnitudes 1e-3..1e5."""
+    un, ud = u
+
+    def sp(p):           # point or vector [[n, d], [n, d]]
+        return [[p[0][0] * un, p[0][1] * ud], [p[1][0] * un, p[1][1] * ud]]
+
+    def sobj(o):
+        if o[0] == "A":
+            return [o[0], sp(o[1]), sp(o[2]), sp(o[3])] + list(o[4:])
+        return [o[0]] + [sp(q) for q in o[1:]]
+
+    def smat(M):
+        return list(M[:4]) + [[M[4][0] * un, M[4][1] * ud], [M[5][0] * un, M[5][1] * ud]]
+    c = dict(case)
+    c["obj"], c["img"] = sobj(case["obj"]), sobj(case["img"])
+    c["hist"] = [smat(M) for M in case["hist"]]
+    c["acc"] = smat(case["acc"])
+    c["unit"] = "%d/%d" % u
+    return c
+
+
 def cases_from_dump(path, seed):
     n = 0
     for st in engine.read_dump(path):
         n += 1
         if st["hist"]:
-            yield {"obj": st["obj"], "hist": st["hist"], "acc": st["acc"], "img": st["img"], "n": n, "seed": seed}
+            case = {"obj": st["obj"], "hist": st["hist"], "acc": st["acc"], "img": st["img"], "n": n, "seed": seed}
+            yield case
+            yield scaled(case, UNITS[(n + seed) % len(UNITS)])
 
 
 def run(tier, seed):
@@ -250,6 +280,8 @@ def run(tier, seed):
         n = 0
         for case, r in engine.replay("harness.c02", cases_from_dump(res["dump"], seed), chunk=100):
             run.record(case, r, key="%s%s" % (case["obj"], case["hist"]))
+            if "unit" in case:
+                run.extra["cases_in_other_units"] = run.extra.get("cases_in_other_units", 0) + 1
             if n % 600 == 5:
                 run.sample({k: case[k] for k in ("obj", "hist", "img")})
             n += 1
